@@ -1,7 +1,7 @@
 SPECIFICATION GSpec
 CONSTANTS
   MaxN = 2
-  Modes = {"async", "sockerr", "streamerr"}
+  Modes = {"async", "sockerr", "streamerr", "binderr"}
   Cts = {0, 2}
   L = 6
 CHECK_DEADLOCK FALSE
